@@ -178,7 +178,7 @@ func main() {
 		go c.runBatches(ch, &wg)
 	}
 	var sections sync.WaitGroup
-	sections.Add(3)
+	sections.Add(4)
 	t0 := time.Now()
 	timing := map[string]float64{}
 	var tmu sync.Mutex
@@ -192,6 +192,7 @@ func main() {
 	go timed("trie_section_done_s", func() { c.trieSection(r.Fork(1), ch) })
 	go timed("rpc_section_done_s", func() { c.rpcSection(r.Fork(2), ch) })
 	go timed("range_section_done_s", func() { c.rangeSection(r.Fork(3)) })
+	go timed("weird_section_done_s", func() { c.weirdSection(r.Fork(4), ch) })
 	sections.Wait()
 	close(ch)
 	wg.Wait()
